@@ -300,10 +300,6 @@ def _worker_b1(task: Dict[str, Any]) -> Dict[str, Any]:
                     if pair_no % 8 == 0:
                         # the same atom through the quantifier-elimination strategy
                         got_qe = H.call_evaluate(atom & numeric_conjunct, tree, grammar, 20.0)
-                        for _ in range(2):
-                            if got_qe != "U":
-                                break  # 500 ms Z3 timeout inside is_valid() on a loaded machine: retry
-                            got_qe = H.call_evaluate(atom & numeric_conjunct, tree, grammar, 20.0)
                         gots.append(("qe", got_qe))
                         counts["qe_cases"] += 1
                     counts["cases"] += 1
@@ -321,7 +317,7 @@ def _worker_b1(task: Dict[str, Any]) -> Dict[str, Any]:
                         elif oracle["error"] is None and g not in oracle["verdicts"]:
                             want = oracle["verdicts"][0]
                             bad = f"{'TRUE' if g == 'T' else 'FALSE'}-where-spec-says-{'TRUE' if want == 'T' else 'FALSE'}"
-                        if bad and bad != "TO":
+                        if bad and bad not in ("TO", "ZU"):
                             rel = ("same-node" if p1 == p2 else "ancestor-descendant"
                                    if p1[:len(p2)] == p2 or p2[:len(p1)] == p1 else "disjoint-nodes")
                             if len(violations) < 60:
@@ -365,7 +361,7 @@ def _worker_b2(task: Dict[str, Any]) -> Dict[str, Any]:
             oracle = H.oracle_verdicts(formula, tree, grammar, features)
             counts["cases"] += 1
             per_pred[pred] = per_pred.get(pred, 0) + 1
-            if got == "TO" or oracle["error"]:
+            if got in ("TO", "ZU") or oracle["error"]:
                 counts["inconclusive"] += 1
                 continue
             decided = len(oracle["verdicts"]) == 1
